@@ -80,6 +80,9 @@ type Scen struct {
 	Files  []File    `json:"files"`
 	Args   []Arg     `json:"args"`
 	Note   string    `json:"note,omitempty"`
+	// NoFile: open-file limit of the child process (0: inherited) - a resource fault: a command
+	// that opens its patch files one at a time is unaffected by a low limit
+	NoFile int `json:"nofile_limit,omitempty"`
 }
 
 func (s *Scen) Clone() *Scen {
@@ -250,6 +253,10 @@ func Exec(s *Scen, binDir, dir string) (*Observed, error) {
 	ctx, cancel := context.WithTimeout(context.Background(), 20*time.Second)
 	defer cancel()
 	cmd := exec.CommandContext(ctx, bin, argv...)
+	if s.NoFile > 0 {
+		sh := fmt.Sprintf("ulimit -n %d; exec \"$0\" \"$@\"", s.NoFile)
+		cmd = exec.CommandContext(ctx, "/bin/sh", append([]string{"-c", sh, bin}, argv...)...)
+	}
 	cmd.Dir = dir
 	cmd.Env = []string{"PATH=/usr/bin:/bin", "HOME=" + dir}
 	var so, se bytes.Buffer
@@ -395,6 +402,13 @@ func chainPatch(i int) string {
 	return fmt.Sprintf(`[{"op":"test","path":"/step","value":%d},{"op":"replace","path":"/step","value":%d},{"op":"add","path":"/log/-","value":"p%d"}]`, i, i+1, i)
 }
 
+// bigPatch is an applicable patch of more than 1 MiB (a large string value added and removed again
+// around the usual chain step).
+func bigPatch(i int) string {
+	pad := strings.Repeat("0123456789abcdef", 70000)
+	return fmt.Sprintf(`[{"op":"add","path":"/pad","value":"%s"},{"op":"remove","path":"/pad"},`, pad) + chainPatch(i)[1:]
+}
+
 func overwritePatch(i int) string {
 	return fmt.Sprintf(`[{"op":"replace","path":"/x","value":"from-%d"}]`, i)
 }
@@ -513,6 +527,28 @@ func Enumerate() []*Scen {
 			}
 			out = append(out, &Scen{Target: target, Stdin: sim.Bytes(in), Chunks: chunks, Note: "enumeration: stdin in several writes", Files: []File{{Name: "p.json", State: StFile, Content: sim.Bytes(chainPatch(0)), Note: "valid"}}, Args: []Arg{{File: 0}}})
 			out = append(out, &Scen{Target: target, Stdin: sim.Bytes(in), Chunks: chunks, Note: "enumeration: stdin in several writes, no patches"})
+		}
+		// a patch file of more than 1 MiB before / between / after ordinary ones (order must not depend on size)
+		for pos := 0; pos < 3; pos++ {
+			s := &Scen{Target: target, Stdin: sim.Bytes(chainDoc), Note: fmt.Sprintf("enumeration: 1 MiB patch file at position %d of 3", pos)}
+			for i := 0; i < 3; i++ {
+				c := chainPatch(i)
+				if i == pos {
+					c = bigPatch(i)
+				}
+				s.Files = append(s.Files, File{Name: fmt.Sprintf("p%d.json", i), State: StFile, Content: sim.Bytes(c), Note: "valid"})
+				s.Args = append(s.Args, Arg{File: i})
+			}
+			out = append(out, s)
+		}
+		// a low open-file limit with many valid patch files
+		{
+			s := &Scen{Target: target, Stdin: sim.Bytes(chainDoc), Note: "enumeration: 100 applicable patch files under an open-file limit of 32", NoFile: 32}
+			for i := 0; i < 100; i++ {
+				s.Files = append(s.Files, File{Name: fmt.Sprintf("c%d.json", i), State: StFile, Content: sim.Bytes(chainPatch(i)), Note: "valid"})
+				s.Args = append(s.Args, Arg{File: i})
+			}
+			out = append(out, s)
 		}
 		// exit-status arithmetic: 255, 256, 257 and 512 undecodable patch files; 256 applicable ones
 		for _, nbad := range []int{255, 256, 257, 512} {
@@ -635,6 +671,19 @@ func Gen(seed uint64) *Scen {
 			f = File{Name: name, State: StFile, Content: sim.Bytes("null"), Note: "null-patch"}
 		}
 		s.Files = append(s.Files, f)
+	}
+	if chain && n > 0 && r.P(15) {
+		// one applicable chain patch becomes a >1 MiB file
+		for i := range s.Files {
+			if s.Files[i].State == StFile && s.Files[i].Note == "generated" && strings.HasPrefix(string(s.Files[i].Content), `[{"op":"test","path":"/step"`) {
+				s.Files[i].Content = sim.Bytes(`[{"op":"add","path":"/pad","value":"` + strings.Repeat("0123456789abcdef", 70000) + `"},{"op":"remove","path":"/pad"},` + string(s.Files[i].Content[1:]))
+				s.Files[i].Note = "generated-1MiB"
+				break
+			}
+		}
+	}
+	if n >= 6 && r.P(300) {
+		s.NoFile = 16 + r.Intn(8)
 	}
 	for i := range s.Files {
 		a := Arg{File: i, Spelling: r.Intn(4)}
@@ -877,7 +926,7 @@ func RunWorker(p sim.Params) *sim.Summary {
 		sum.Enum["fault_and_order_enumeration"]++
 	}
 	if done {
-		sum.Exhaustive = []string{fmt.Sprintf("every fault kind (%d) x every position in -p lists of length 1..3 with all other patches valid, every permutation of three chained and of three overwriting patches, no/duplicate/symlinked arguments, 14 stdin variants (empty, other roots, torn, byte-order marks, trailing data), 255/256/257/512 patch arguments, stdin delivered in 1/2/n writes, a named pipe and a relative symlink in a sub-directory as patch file at every position, 4 path styles x 4 flag spellings - for both binaries (%d executions)", numFaultKinds, len(enum))}
+		sum.Exhaustive = []string{fmt.Sprintf("every fault kind (%d) x every position in -p lists of length 1..3 with all other patches valid, every permutation of three chained and of three overwriting patches, no/duplicate/symlinked arguments, 14 stdin variants (empty, other roots, torn, byte-order marks, trailing data), 255/256/257/512 patch arguments, a 1 MiB patch file at each of 3 positions, 100 patch files under an open-file limit of 32, stdin delivered in 1/2/n writes, a named pipe and a relative symlink in a sub-directory as patch file at every position, 4 path styles x 4 flag spellings - for both binaries (%d executions)", numFaultKinds, len(enum))}
 	}
 	// 2. seeded random scenarios
 	for i := int64(0); i < p.MaxRuns && time.Now().Before(p.Deadline); i++ {
